@@ -9,6 +9,7 @@ import (
 	"fmt"
 	"sync"
 	"sync/atomic"
+	"time"
 
 	"github.com/privacybydesign/gabi"
 	"github.com/privacybydesign/gabi/big"
@@ -46,6 +47,7 @@ const (
 	tProveList          // BuildProofList over two credentials (linked proofs)
 	tIssueCommit        // issuance commitment (ProofU) with the shared secret
 	tRandStress         // tight loop of 2000 one-block reads from the process-wide generator (free-running class)
+	tGenKey             // gabikeys.GenerateKeyPair at a toy length (free-running class: parallel key generation under the race detector)
 	tOpKinds
 )
 
@@ -283,6 +285,15 @@ func runT(r *kernel.Run, s TSpec) *tResult {
 								break
 							}
 							sl.blocks = append(sl.blocks, b)
+						}
+					case tGenKey:
+						base := gabikeys.BaseParameters{LePrime: 120, Lh: 256, Lm: 256, Ln: 128, Lstatzk: 80}
+						params := &gabikeys.SystemParameters{BaseParameters: base, DerivedParameters: gabikeys.MakeDerivedParameters(base)}
+						gsk, gpk, err := gabikeys.GenerateKeyPair(params, 2, 0, time.Unix(4000000000, 0))
+						if err != nil {
+							sl.errs = append(sl.errs, "GenerateKeyPair: "+err.Error())
+						} else if why := wellFormed(gsk, gpk, 128, 2); why != "" {
+							sl.errs = append(sl.errs, "concurrently generated key malformed: "+why)
 						}
 					case tRandomQR:
 						q := gabi.VerifRandomQR(pk.N)
